@@ -253,3 +253,56 @@ def render(ast):
         return ASTString(pretty=False).render(copy.deepcopy(ast))
     except Exception as e:  # rendering is informational only
         return "<unrenderable: %s>" % type(e).__name__
+
+
+# ---- rulesets / validation ------------------------------------------------------------------
+def dpruleset(name, comps, rules):
+    """rules: list of (rule name|None, expr | ('when', cond, then), erCode, erLevel)"""
+    rr = []
+    for rn, ex, ec, el in rules:
+        if isinstance(ex, tuple) and ex[0] == "when":
+            node = A.HRBinOp(left=_e(ex[1]), op="when", right=_e(ex[2]), **P)
+        else:
+            node = _e(ex)
+        rr.append(A.DPRule(name=rn, rule=node, erCode=ec, erLevel=el, **P))
+    return A.DPRuleset(name=name, signature_type="variable",
+                       params=[A.DPRIdentifier(value=c, kind="ComponentID", alias=None, **P) for c in comps], rules=rr, **P)
+
+
+def check_datapoint(ds, ruleset_name, output=None, components=()):
+    out = {None: None, "invalid": A.ValidationOutput.INVALID, "all": A.ValidationOutput.ALL, "all_measures": A.ValidationOutput.ALL_MEASURES}[output]
+    return A.DPValidation(dataset=_e(ds), ruleset_name=ruleset_name, components=list(components), output=out, **P)
+
+
+def _ci(v):
+    return A.DefIdentifier(value=v, kind="CodeItemID", **P)
+
+
+def hruleset(name, comp, rules):
+    """rules: list of (rule name|None, left code, op, [(sign, code), ...], erCode, erLevel)"""
+    rr = []
+    for rn, left, op, terms, ec, el in rules:
+        rhs = None
+        for sign, code in terms:
+            if rhs is None:
+                rhs = _ci(code) if sign == "+" else A.HRUnOp(op="-", operand=_ci(code), **P)
+            else:
+                rhs = A.HRBinOp(left=rhs, op=sign, right=_ci(code), **P)
+        rr.append(A.HRule(name=rn, rule=A.HRBinOp(left=_ci(left), op=op, right=rhs, **P), erCode=ec, erLevel=el, **P))
+    return A.HRuleset(name=name, signature_type="variable", element=A.DefIdentifier(value=comp, kind="DatasetID", **P), rules=rr, **P)
+
+
+def hrop(op, ds, ruleset_name, comp, mode=None, input_mode=None, output=None):
+    vm = None if mode is None else A.ValidationMode(mode)
+    if op == "check_hierarchy":
+        im = None if input_mode is None else A.CHInputMode(input_mode)
+        om = None if output is None else A.ValidationOutput(output)
+    else:
+        im = None if input_mode is None else A.HRInputMode(input_mode)
+        om = None if output is None else A.HierarchyOutput(output)
+    return A.HROperation(op=op, dataset=_e(ds), ruleset_name=ruleset_name, rule_component=comp_id(comp), conditions=[],
+                         validation_mode=vm, input_mode=im, output=om, **P)
+
+
+def comp_id(name):
+    return A.Identifier(value=name, kind="ComponentID", **P)
